@@ -70,7 +70,7 @@ theorem g72x_session_accepted (r : Rate) (hr : r.bits = 3 ∨ r.bits = 4 ∨ r.b
            framesHi := by show _ < framesOf g.ch one + g.block; rw [hch, framesOf_one, hB]; exact f2,
            backLen := fun d n => (C06G72x.g72x_read_contract _ (C06G72x.g72x_open_inv r d) ty n).2.2.1,
            rate := hrate,
-           lossy := by
+           c01 := Or.inl <| by
              show losslessLow g.codec ty = none
              rcases hcodec with h | h | h <;> rw [h] <;> cases ty <;> rfl }
 
@@ -110,7 +110,7 @@ theorem nms_session_accepted (r : Nms.Rate) (cv : Conv) (g : AbsWrite.Geom) (ty 
            framesLo := by show framesOf g.ch one ≤ _; rw [hch, framesOf_one]; exact f1,
            framesHi := by show _ < framesOf g.ch one + g.block; rw [hch, framesOf_one, hB]; exact f2,
            backLen := hback, rate := hrate,
-           lossy := by
+           c01 := Or.inl <| by
              show losslessLow g.codec ty = none
              rcases hcodec with h | h | h <;> rw [h] <;> cases ty <;> rfl }
 
@@ -158,7 +158,7 @@ theorem gsm_session_accepted (c : Gsm.Cfg) (cv : Conv) (g : AbsWrite.Geom) (ty :
              show Gsm.framesAtOpen c (gsmData c cv (typed ty one)).length none < framesOf g.ch one + g.block
              rw [hch, framesOf_one, hB]; unfold gsmData; rw [f0]; exact f2,
            backLen := hback, rate := hrate,
-           lossy := by
+           c01 := Or.inl <| by
              show losslessLow g.codec ty = none
              rw [hcodec]; cases ty <;> rfl }
 
